@@ -41,7 +41,7 @@ func genHashCase(t *rapid.T) interface{} {
 	return &HashCase{
 		Type:   hashTypes[rapid.IntRange(0, len(hashTypes)-1).Draw(t, "type")],
 		Chain:  rapid.IntRange(0, 2).Draw(t, "chain"),
-		Field:  rapid.IntRange(0, 15).Draw(t, "field"),
+		Field:  rapid.IntRange(0, 23).Draw(t, "field"),
 		Seed:   rapid.IntRange(0, 1000).Draw(t, "seed"),
 		Prefix: rapid.Bool().Draw(t, "prefix"),
 	}
@@ -145,9 +145,25 @@ func mutatorsFor(typ, chain string, fx *fixture) []mutator {
 		}
 		return cur
 	}
+	respell := func(a string, s int) string {
+		if !strings.HasPrefix(a, "0x") || len(a) != 42 {
+			return a
+		}
+		switch s % 3 {
+		case 0:
+			return strings.ToLower(a)
+		case 1:
+			return a[2:]
+		}
+		return "0x" + strings.ToUpper(a[2:])
+	}
 	switch typ {
 	case "sendtohub":
 		return []mutator{
+			{"ExternalCoinId.spelling", func(e mtypes.ExternalEvent, s int) {
+				x := e.(*mtypes.SendToHubEvent)
+				x.ExternalCoinId = respell(x.ExternalCoinId, s)
+			}},
 			{"EventNonce", func(e mtypes.ExternalEvent, s int) { e.(*mtypes.SendToHubEvent).EventNonce += uint64(1 + s%3) }},
 			{"ExternalCoinId", func(e mtypes.ExternalEvent, s int) {
 				x := e.(*mtypes.SendToHubEvent)
@@ -169,6 +185,14 @@ func mutatorsFor(typ, chain string, fx *fixture) []mutator {
 		}
 	case "transfer":
 		return []mutator{
+			{"ExternalCoinId.spelling", func(e mtypes.ExternalEvent, s int) {
+				x := e.(*mtypes.TransferToChainEvent)
+				x.ExternalCoinId = respell(x.ExternalCoinId, s)
+			}},
+			{"ExternalReceiver.spelling", func(e mtypes.ExternalEvent, s int) {
+				x := e.(*mtypes.TransferToChainEvent)
+				x.ExternalReceiver = respell(x.ExternalReceiver, s)
+			}},
 			{"EventNonce", func(e mtypes.ExternalEvent, s int) { e.(*mtypes.TransferToChainEvent).EventNonce += uint64(1 + s%3) }},
 			{"ExternalCoinId", func(e mtypes.ExternalEvent, s int) {
 				x := e.(*mtypes.TransferToChainEvent)
@@ -210,6 +234,10 @@ func mutatorsFor(typ, chain string, fx *fixture) []mutator {
 		}
 	case "batch":
 		return []mutator{
+			{"ExternalCoinId.spelling", func(e mtypes.ExternalEvent, s int) {
+				x := e.(*mtypes.BatchExecutedEvent)
+				x.ExternalCoinId = respell(x.ExternalCoinId, s)
+			}},
 			{"EventNonce", func(e mtypes.ExternalEvent, s int) { e.(*mtypes.BatchExecutedEvent).EventNonce += uint64(1 + s%3) }},
 			{"ExternalCoinId", func(e mtypes.ExternalEvent, s int) {
 				x := e.(*mtypes.BatchExecutedEvent)
@@ -377,6 +405,12 @@ func runHashCase(ci interface{}, rec *pbt.Rec) *pbt.Failure {
 		}
 	}
 	rec.Label("type=" + typ)
+	if p1, _ := mtypes.PackEvent(e1); p1 != nil {
+		if p2, _ := mtypes.PackEvent(e2); p2 != nil && bytes.Equal(p1.Value, p2.Value) {
+			rec.Label("mutation-is-identity")
+			return nil
+		}
+	}
 	if e1.Validate(mtypes.ChainID(chain)) != nil || e2.Validate(mtypes.ChainID(chain)) != nil {
 		rec.Label("inadmissible")
 		return nil
@@ -401,13 +435,15 @@ func runHashCase(ci interface{}, rec *pbt.Rec) *pbt.Failure {
 	return nil
 }
 
-func TestC14(t *testing.T) {
-	(&pbt.Check{
+func checkC14() *pbt.Check {
+	return &pbt.Check{
 		ID:          "C14",
 		Rule:        "pairs of admissible events of one type and nonce differing in exactly one field (every field of the five event types, external addresses with and without 0x), plus pairs whose adjacent variable-length fields are shifted across the field boundary (coin id 1|0x30.. vs 10|..); both are applied with quorum on twin instances and the pair counts only if the resulting state differs; non-trivial = pairs that pass validation and differ in effect; distinct = (field, chain, values)",
 		Gen:         genHashCase,
 		New:         func() interface{} { return &HashCase{} },
 		Run:         runHashCase,
 		Assumptions: []string{"relevance of a field is established by execution (state digest without the vote records), never assumed"},
-	}).Main(t)
+	}
 }
+
+func TestC14(t *testing.T) { checkC14().Main(t) }
